@@ -187,26 +187,54 @@ def ofOut (o : Out CF) : R :=
   | .samples (.flat iq n) => .s true n #[iq]
   | .samples (.vec l) => .s false l.length l.toArray
 
-/-- structure exact, values to tolerance (a flat value of an empty sequence is not observable) -/
-def R.agrees (tol : Float) (a b : R) : Bool :=
+/-- What the comparison may ignore because the property does not constrain it:
+`bothErr` — the rounded count is out of range AND the duration is misaligned (either error is right,
+which one is reported depends on the order of two tests); `zeroPartial` — a partial request with a
+known zero scale (a placeholder and all-zero samples are both allowed by the statement). -/
+structure Loose where
+  bothErr : Bool := false
+  zeroPartial : Bool := false
+
+def R.isFlat : R → Bool
+  | .s f _ _ => f
+  | .ph f _ => f
+  | _ => false
+
+def R.allZero (r : R) : Bool :=
+  match r with
+  | .s _ n v => n == 0 || v.all CF.isZero
+  | _ => false
+
+/-- numeric equality (`-0.0 = 0.0`, NaN = NaN) -/
+def CF.same (a b : CF) : Bool :=
+  (a.re == b.re || (a.re.isNaN && b.re.isNaN)) && (a.im == b.im || (a.im.isNaN && b.im.isNaN))
+
+/-- element-wise comparison of two sample sequences of equal length, whatever their representation
+(`IqSamples::Flat` and `IqSamples::Samples` are documented as equivalent) -/
+def R.elems (eq : CF → CF → Bool) (a b : R) (n : Nat) : Bool :=
+  n == 0 || (if a.isFlat && b.isFlat then eq (a.get 0) (b.get 0)
+             else (List.range n).all fun k => eq (a.get k) (b.get k))
+
+/-- same outcome up to representation: error class (either one when both apply), length, values to
+tolerance (a flat value of an empty sequence is not observable) -/
+def R.agrees (lo : Loose) (tol : Float) (a b : R) : Bool :=
   match a, b with
-  | .err e, .err f => e == f
+  | .err e, .err f => e == f || lo.bothErr
   | .crash, .crash => true
-  | .ph fa na, .ph fb nb => fa == fb && na == nb
-  | .s fa na va, .s fb nb vb =>
-    fa == fb && na == nb &&
-      (na == 0 || (va.size == vb.size && (List.range va.size).all fun k => CF.close tol (va.getD k default) (vb.getD k default)))
+  | .ph _ na, .ph _ nb => na == nb
+  | .s _ na _, .s _ nb _ => na == nb && R.elems (CF.close tol) a b na
+  | .ph _ na, .s _ nb _ => lo.zeroPartial && na == nb && b.allZero
+  | .s _ na _, .ph _ nb => lo.zeroPartial && na == nb && a.allZero
   | .skip, .skip => true
   | _, _ => false
 
+/-- the same samples (numerically), the same placeholder length, the same error — representation ignored -/
 def R.bitEq (a b : R) : Bool :=
   match a, b with
   | .err e, .err f => e == f
   | .crash, .crash => true
-  | .ph fa na, .ph fb nb => fa == fb && na == nb
-  | .s fa na va, .s fb nb vb =>
-    fa == fb && na == nb && va.size == vb.size &&
-      (List.range va.size).all fun k => CF.bitEq (va.getD k default) (vb.getD k default)
+  | .ph _ na, .ph _ nb => na == nb
+  | .s _ na _, .s _ nb _ => na == nb && R.elems CF.same a b na
   | _, _ => false
 
 /-- same error class / same length, whatever the representation -/
@@ -346,17 +374,27 @@ def handle (inp out : Sexp) : CaseResult :=
       | .atom "some" => q.mask == 0
       | .atom "none" => q.mask != 0
       | _ => false
-    let agreeMain := R.agrees tol mMain rMain
-    let agreeFilled := R.agrees tol mFilled rFilled && R.agrees tol mFilled rDirect
+    -- what the property leaves open (see `Loose`)
+    let x := fmulF q.dur q.rate
+    let nRound := roundHA x.m x.den
+    let bothErr := (decide (nRound < 0) || decide (u32Max ≤ nRound)) && !alignedB x q.rate nRound
+    let zeroScaleKnown := match q.scale with | .known v => v.isZero | _ => false
+    let lo : Loose := { bothErr := bothErr, zeroPartial := req.isPartial && zeroScaleKnown }
+    let loF : Loose := { bothErr := bothErr }
+    -- a padded total beyond usize::MAX is outside the property's bounded parameter ranges: whatever the
+    -- implementation does there (panic, saturate, error) is not compared
+    let outOfDomain := (match mMain with | .crash => true | _ => false) || (match mFilled with | .crash => true | _ => false)
+    let agreeMain := R.agrees lo tol mMain rMain
+    let agreeFilled := R.agrees loF tol mFilled rFilled && R.agrees loF tol mFilled rDirect
     let agreeVariants :=
       if q.light then
-        R.agrees tol (ofOut (sample fmulF reqBase)) rBase &&
-        R.agrees tol (ofOut (sample fmulF reqDbl)) rDbl &&
-        R.agrees tol (ofOut (sample fmulF reqRot)) rRot
+        R.agrees loF tol (ofOut (sample fmulF reqBase)) rBase &&
+        R.agrees loF tol (ofOut (sample fmulF reqDbl)) rDbl &&
+        R.agrees loF tol (ofOut (sample fmulF reqRot)) rRot
       else true
-    let agree := agreeMain && agreeFilled && agreeVariants && mirrorOk && concOk
+    let mirrorOk := mirrorOk || bothErr
+    let agree := outOfDomain || (agreeMain && agreeFilled && agreeVariants && mirrorOk && concOk)
     -- 2. the specification, evaluated on the implementation's outputs
-    let x := fmulF q.dur q.rate
     let exact := sameValue x (q.dur.mul q.rate) &&
       (!q.kind.padded || (sameValue (fmulF q.padL q.rate) (q.padL.mul q.rate) &&
                           sameValue (fmulF q.padR q.rate) (q.padR.mul q.rate)))
@@ -374,7 +412,7 @@ def handle (inp out : Sexp) : CaseResult :=
       match rDirect with
       | .crash => modelCrash   -- usize overflow: outside the property's bounded parameter ranges
       | _ => match countRes with
-        | some res => padOk && countSpecB x q.rate res
+        | some res => padOk && countSpecLooseB x q.rate res
         | none => false
     -- (b) every variant has the same error class / length
     let specShape := R.sameShape rMain rDirect && R.sameShape rFilled rDirect &&
@@ -425,21 +463,23 @@ def handle (inp out : Sexp) : CaseResult :=
         n.asNat? == some ex.count &&
           (match bitsOfAtom sc, bitsOfAtom ph, bitsOfAtom dt with
            | some a, some b, some c =>
-             CF.bitEq ⟨floatOfBits a, 0.0⟩ ⟨ex.scale.re, 0.0⟩ && CF.bitEq ⟨floatOfBits b, 0.0⟩ ⟨ex.phase.re, 0.0⟩ &&
-               CF.bitEq ⟨floatOfBits c, 0.0⟩ ⟨ex.detuning.re, 0.0⟩
+             CF.same ⟨floatOfBits a, 0.0⟩ ⟨ex.scale.re, 0.0⟩ && CF.same ⟨floatOfBits b, 0.0⟩ ⟨ex.phase.re, 0.0⟩ &&
+               CF.same ⟨floatOfBits c, 0.0⟩ ⟨ex.detuning.re, 0.0⟩
            | _, _, _ => false) &&
           (match rDirect with
            | .crash => true
            | _ => (rDirect.count?).map (fun t => decide (t == left + ex.count + right)) == some true)
-      | .list [.atom "err", .atom "range"], .err .outOfRange => R.sameShape rDirect (.err .outOfRange)
-      | .list [.atom "err", .atom "misaligned"], .err .misaligned => R.sameShape rDirect (.err .misaligned)
+      | .list [.atom "err", .atom "range"], .err _ =>
+        R.sameShape rDirect (.err .outOfRange) && (decide (nRound < 0) || decide (u32Max ≤ nRound))
+      | .list [.atom "err", .atom "misaligned"], .err _ =>
+        R.sameShape rDirect (.err .misaligned) && !alignedB x q.rate nRound
       | _, _ => false
     -- (j) the public slice function apply_phase_and_detuning on scale·envelope gives the samples
     let specApd := !q.light || (match rApd with
       | .skip => (match rBase with | .s _ _ _ => false | _ => true)
       | _ => pairwise rDirect rApd (fun v => v) (if detZero then 1e-12 else 1e-10))
-    let specOk := specCount && specShape && specKnown && specPartial && specZero && specLinear && specDbl && specRot &&
-      specSiblings && specExplicit && specApd
+    let specOk := outOfDomain || (specCount && specShape && specKnown && specPartial && specZero && specLinear &&
+      specDbl && specRot && specSiblings && specExplicit && specApd)
     let fails :=
       (if agreeMain then [] else ["model-main"]) ++ (if agreeFilled then [] else ["model-filled"]) ++
       (if agreeVariants then [] else ["model-variants"]) ++ (if mirrorOk then [] else ["float-mirror"]) ++
